@@ -1,4 +1,307 @@
-//! Mode D (C39) — filled in below.
-pub fn run(_w: &[&str]) -> String {
-    "BADCASE".into()
+//! Mode D (C39): who keeps a connection alive, and when the peer sees it go.
+//!
+//!   D <seed> <op>,<op>,...
+//! One p2p `Connection` over the scripted socket, with an object server whose method `Slow(id)` stays in flight until
+//! the harness releases it.  Handle 0 is the connection returned by `build()`.  Ops (after each one the executor and
+//! the pending `graceful_shutdown` futures are polled in a seeded order until nothing moves):
+//!   k<n>:<h>     handle n := clone of the Connection held by handle h (a Connection, a stream's or a proxy's connection)
+//!   s<n>:<h>:<A|B|*>   handle n := MessageStream (for_match_rule / From<&Connection>) made from handle h's connection
+//!   p<n>:<h>     handle n := Proxy          g<n>:<p>   handle n := SignalStream of proxy p (receive_all_signals)
+//!   d<n>         drop handle n              G<n>       graceful_shutdown() on Connection handle n (consumes it)
+//!   C<n>         close() on Connection handle n (consumes it)
+//!   m<k>         the peer sends the method call Slow(k)          r<k>   handler k is released (it replies and ends)
+//!   f<k>         the peer sends the method call Fast() (replies at once; reply id k)
+//! Observation: snap=<one token per op>;events=<...>
+//!   snap token: `W`/`w` write half dropped / alive, `R`/`r` read half, then `+<n>` for every graceful_shutdown done
+//!   events, in order: y<k> reply to call k written, o other message written, dw / dr half dropped, cl close(), gs<n>
+use std::{
+    collections::{BTreeMap, HashSet},
+    future::Future,
+    pin::Pin,
+    sync::{Arc, Mutex},
+    task::{Context, Poll, Waker},
+};
+
+use zbus::{message::Message, MessageStream};
+use zvariant::{serialized::Context as ZCtx, serialized::Data, Endian};
+
+use crate::fault::{poll_once, Lcg};
+use crate::sock::{Kind, Sh, Shared, Sock, GUID};
+
+#[derive(Default)]
+struct Gates {
+    released: HashSet<u32>,
+    wakers: Vec<Waker>,
+}
+
+struct Gate {
+    id: u32,
+    st: Arc<Mutex<Gates>>,
+}
+impl Future for Gate {
+    type Output = ();
+    fn poll(self: Pin<&mut Self>, cx: &mut Context<'_>) -> Poll<()> {
+        let mut g = self.st.lock().unwrap();
+        if g.released.contains(&self.id) {
+            Poll::Ready(())
+        } else {
+            g.wakers.push(cx.waker().clone());
+            Poll::Pending
+        }
+    }
+}
+
+struct Slow {
+    gates: Arc<Mutex<Gates>>,
+}
+
+#[zbus::interface(name = "v.S")]
+impl Slow {
+    async fn slow(&self, id: u32) -> u32 {
+        Gate { id, st: self.gates.clone() }.await;
+        id
+    }
+    async fn fast(&self, id: u32) -> u32 {
+        id
+    }
+}
+
+enum Handle {
+    Conn(zbus::Connection),
+    Stream(MessageStream),
+    Proxy(zbus::Proxy<'static>),
+    Signals(#[allow(dead_code)] zbus::proxy::SignalStream<'static>),
+}
+
+fn spin<F: Future>(ex: &zbus::Executor<'static>, f: F) -> Option<F::Output> {
+    let mut f = Box::pin(f);
+    for _ in 0..100_000 {
+        if let Poll::Ready(v) = poll_once(f.as_mut()) {
+            return Some(v);
+        }
+        let mut t = Box::pin(ex.tick());
+        let _ = poll_once(t.as_mut());
+    }
+    None
+}
+
+pub fn run(w: &[&str]) -> String {
+    if w.len() != 3 {
+        return "BADCASE".into();
+    }
+    let seed: u64 = match w[1].parse() {
+        Ok(s) => s,
+        Err(_) => return "BADCASE".into(),
+    };
+    let shared: Sh = Arc::new(Mutex::new(Shared::new(Kind::Eof, 1000, 1000)));
+    let gates = Arc::new(Mutex::new(Gates::default()));
+    let mut bf = Box::pin(
+        zbus::connection::Builder::authenticated_socket(Sock(shared.clone()), GUID)
+            .unwrap()
+            .p2p()
+            .internal_executor(false)
+            .build(),
+    );
+    let conn = loop {
+        match poll_once(bf.as_mut()) {
+            Poll::Ready(Ok(c)) => break c,
+            Poll::Ready(Err(_)) => return "BUILD-ERR".into(),
+            Poll::Pending => continue,
+        }
+    };
+    drop(bf);
+    let ex = conn.executor().clone();
+    match spin(&ex, conn.object_server().at("/o", Slow { gates: gates.clone() })) {
+        Some(Ok(true)) => (),
+        _ => return "SETUP-ERR".into(),
+    }
+    // let the object server's dispatch task subscribe before the peer sends anything
+    for _ in 0..64 {
+        let mut t = Box::pin(ex.tick());
+        if poll_once(t.as_mut()).is_pending() {
+            break;
+        }
+    }
+
+    let mut rng = Lcg(seed.wrapping_mul(2654435761).wrapping_add(31));
+    let mut handles: BTreeMap<usize, Handle> = BTreeMap::new();
+    handles.insert(0, Handle::Conn(conn));
+    let mut graceful: Vec<(usize, Option<Pin<Box<dyn Future<Output = ()>>>>)> = vec![];
+    let mut call_serial: BTreeMap<u32, u32> = BTreeMap::new();
+    let mut snaps: Vec<String> = vec![];
+
+    fn conn_of(h: &Handle) -> Option<zbus::Connection> {
+        match h {
+            Handle::Conn(c) => Some(c.clone()),
+            Handle::Stream(s) => Some(zbus::Connection::from(s)),
+            Handle::Proxy(p) => Some(p.connection().clone()),
+            Handle::Signals(_) => None,
+        }
+    }
+
+    for op in w[2].split(',').filter(|o| !o.is_empty()) {
+        let (k, rest) = op.split_at(1);
+        let parts: Vec<&str> = rest.split(':').collect();
+        let num = |i: usize| -> Option<usize> { parts.get(i).and_then(|x| x.parse().ok()) };
+        match k {
+            "k" | "s" | "p" => {
+                let (n, h) = match (num(0), num(1)) {
+                    (Some(n), Some(h)) => (n, h),
+                    _ => return "BADCASE".into(),
+                };
+                // the source handle lends its connection for the duration of the op only
+                if let Some(c) = handles.get(&h).and_then(conn_of) {
+                    let new = match k {
+                        "k" => Some(Handle::Conn(c.clone())),
+                        "s" => {
+                            let s = match parts.get(2).copied() {
+                                Some("*") => Some(MessageStream::from(&c)),
+                                Some("A") => spin(&ex, MessageStream::for_match_rule("type='signal',interface='v.A'", &c, None)).and_then(|r| r.ok()),
+                                Some("B") => spin(&ex, MessageStream::for_match_rule("type='signal',member='F'", &c, None)).and_then(|r| r.ok()),
+                                _ => return "BADCASE".into(),
+                            };
+                            s.map(Handle::Stream)
+                        }
+                        _ => spin(&ex, zbus::Proxy::new(&c, ":1.5", "/p", "v.T")).and_then(|r| r.ok()).map(Handle::Proxy),
+                    };
+                    drop(c);
+                    if let Some(nh) = new {
+                        handles.insert(n, nh);
+                    }
+                }
+            }
+            "g" => {
+                let (n, p) = match (num(0), num(1)) {
+                    (Some(n), Some(p)) => (n, p),
+                    _ => return "BADCASE".into(),
+                };
+                if let Some(Handle::Proxy(px)) = handles.get(&p) {
+                    let px = px.clone();
+                    if let Some(Ok(s)) = spin(&ex, async move { px.receive_all_signals().await }) {
+                        handles.insert(n, Handle::Signals(s));
+                    }
+                }
+            }
+            "d" => {
+                if let Some(n) = num(0) {
+                    handles.remove(&n);
+                }
+            }
+            "G" | "C" => {
+                let n = match num(0) {
+                    Some(n) => n,
+                    None => return "BADCASE".into(),
+                };
+                if let Some(Handle::Conn(_)) = handles.get(&n) {
+                    if let Some(Handle::Conn(c)) = handles.remove(&n) {
+                        if k == "G" {
+                            graceful.push((n, Some(Box::pin(c.graceful_shutdown()))));
+                        } else {
+                            let _ = spin(&ex, c.close());
+                        }
+                    }
+                }
+            }
+            "m" | "f" => {
+                let id: u32 = match num(0) {
+                    Some(n) => n as u32,
+                    None => return "BADCASE".into(),
+                };
+                let m = Message::method_call("/o", if k == "m" { "Slow" } else { "Fast" })
+                    .and_then(|b| b.interface("v.S"))
+                    .and_then(|b| b.build(&(id,)));
+                match m {
+                    Ok(m) => {
+                        call_serial.insert(m.primary_header().serial_num().get(), id);
+                        shared.lock().unwrap().release(m.data().bytes());
+                    }
+                    Err(_) => return "BUILD-ERR".into(),
+                }
+            }
+            "r" => {
+                if let Some(id) = num(0) {
+                    let mut g = gates.lock().unwrap();
+                    g.released.insert(id as u32);
+                    for wk in g.wakers.drain(..) {
+                        wk.wake();
+                    }
+                }
+            }
+            _ => return "BADCASE".into(),
+        }
+        // ---- quiescence
+        let mut idle = 0;
+        let mut polls = 0u64;
+        while idle < 2 {
+            let mut cand: Vec<usize> = (0..graceful.len()).filter(|i| graceful[*i].1.is_some()).collect();
+            cand.push(usize::MAX);
+            for i in (1..cand.len()).rev() {
+                let j = rng.next(i + 1);
+                cand.swap(i, j);
+            }
+            let mut progress = false;
+            for c in cand {
+                polls += 1;
+                if polls > 100_000 {
+                    return "LIVELOCK".into();
+                }
+                let before = shared.lock().unwrap().activity;
+                if c == usize::MAX {
+                    let mut t = Box::pin(ex.tick());
+                    if poll_once(t.as_mut()).is_ready() {
+                        progress = true;
+                    }
+                } else if let Some(f) = graceful[c].1.as_mut() {
+                    if poll_once(f.as_mut()).is_ready() {
+                        graceful[c].1 = None;
+                        shared.lock().unwrap().events.push(format!("gs{}", graceful[c].0));
+                        progress = true;
+                    }
+                }
+                if shared.lock().unwrap().activity != before {
+                    progress = true;
+                }
+            }
+            idle = if progress { 0 } else { idle + 1 };
+        }
+        let st = shared.lock().unwrap();
+        let mut tok = format!("{}{}", if st.write_dropped { "W" } else { "w" }, if st.read_dropped { "R" } else { "r" });
+        for (n, f) in &graceful {
+            if f.is_none() {
+                tok.push_str(&format!("+{}", n));
+            }
+        }
+        snaps.push(tok);
+    }
+
+    // ---- events, with written messages identified
+    let st = shared.lock().unwrap();
+    let mut wi = 0;
+    let mut evs: Vec<String> = vec![];
+    for e in &st.events {
+        if e.starts_with('w') {
+            let s = &st.starts[wi];
+            wi += 1;
+            let tok = if st.out.len() >= s.off + s.len {
+                let data = Data::new(st.out[s.off..s.off + s.len].to_vec(), ZCtx::new_dbus(Endian::Little, 0));
+                match unsafe { Message::from_bytes(data) } {
+                    Ok(m) => match m.header().reply_serial().and_then(|r| call_serial.get(&r.get()).copied()) {
+                        Some(id) if m.message_type() == zbus::message::Type::MethodReturn => format!("y{}", id),
+                        _ => "o".to_string(),
+                    },
+                    Err(_) => "o".to_string(),
+                }
+            } else {
+                "o".to_string()
+            };
+            evs.push(tok);
+        } else {
+            evs.push(e.clone());
+        }
+    }
+    let out = format!("snap={};events={}", snaps.join("."), if evs.is_empty() { "-".to_string() } else { evs.join(".") });
+    drop(st);
+    drop(handles);
+    drop(graceful);
+    out
 }
